@@ -277,6 +277,11 @@ def run(F, rep):
         c15.run(F, core.Borrowed(rep, only={'C15.L3'}))
         import c07
         c07.run(F, core.Borrowed(rep, only={'C07.W1', 'C07.S1'}))
+        # flattenModel works on, and returns, a copy (clause shared with C06)
+        import c06
+        c06.run(F, core.Borrowed(rep, only={'C06.P1', 'C06.P2'}))
+    from engines import rule_address_order
+    rule_address_order(F, rep, 'C12.A1', lambda g: '/src/' in g.file, 'the library')
 
 
 _adds = {}
